@@ -9,7 +9,7 @@ INC = -I$(REPO)/include -Iengine/sse -Iengine/mcsched
 WARN = -w
 BASEFLAGS = -std=c++17 -fno-access-control $(WARN) $(INC)
 OPT ?= -O1
-SANFLAGS = -fsanitize=address,undefined -fno-sanitize-recover=undefined -fno-omit-frame-pointer -g1 -D_GLIBCXX_ASSERTIONS -O1
+SANFLAGS = -fsanitize=address,undefined -fsanitize-recover=address -fno-sanitize-recover=undefined -fno-omit-frame-pointer -g1 -D_GLIBCXX_ASSERTIONS -O1
 
 FAMILIES = profile rook queen bishop trimesh
 FAM_profile = -DFAM_PROFILE
